@@ -1,5 +1,6 @@
 import Pandora.Drv.Util
 import Pandora.Model.C15
+import Pandora.Model.C15Lock
 import Pandora.Spec.C15
 
 /-!
@@ -518,11 +519,43 @@ def handleGun (kv : List (String × String)) (impl : String) : String × String 
           | none => "ok"
     (mobs, verdict)
 
+/-! ### kind=first: simultaneous FIRST `[next]` lookups of one path by all instances -/
+
+/-- `inst` threads, each calling `Next` on the same counter `shots` times, executed by the instruction-level system
+`LSys` on `nextCode` under a fair schedule (thread 0, 1, …, n-1, one instruction each, long enough for every call to
+finish — by `C15_next_code_round_robin` every schedule hands out the same values); the rows selected over a source of
+`rows` rows, sorted. -/
+def firstRows (nInst shots rows : Nat) : List Nat :=
+  let key : CKey := (0, ".source.users")
+  let prog : NProg := fun t got => if t < nInst && got.length < shots then some key else none
+  let sched := fairSched nInst (7 * nInst * shots + 7)
+  let s := LSys.init.run nextCode prog sched
+  ((s.vals key).map (rowOf rows)).mergeSort (· ≤ ·)
+
+def handleFirst (kv : List (String × String)) (impl : String) : String × String :=
+  let nInst := (getN? kv "inst").getD 0
+  let shots := (getN? kv "shots").getD 0
+  let rows := (getN? kv "L").getD 0
+  let rounds := (getN? kv "rounds").getD 0
+  let mobs := s!"ok n={rounds} distinct=" ++ natsStr (firstRows nInst shots rows)
+  let verdict :=
+    if !impl.startsWith "ok " then s!"fail:crash:{impl.take 80}" else
+    let ikv := parseKV impl
+    let sets := (splitNE (getS ikv "distinct") "/").map fun m => (splitNE m ",").filterMap (·.toNat?)
+    match sets.find? (fun m => m.length != nInst * shots) with
+    | some m => s!"fail:count:{m.length} rows were handed out in a round of {nInst}x{shots} lookups"
+    | none =>
+      match sets.find? (fun m => !roundRobinOK rows m) with
+      | some m => s!"fail:round-robin:first use by {nInst} instances at once handed out rows {natsStr m}"
+      | none => "ok"
+  (mobs, verdict)
+
 def handle : Handler := fun input impl =>
   let kv := parseKV input
   match getS kv "kind" with
   | "prov" => handleProv kv impl
   | "gun" => handleGun kv impl
+  | "first" => handleFirst kv impl
   | _ => ("-", "fail:driver:unknown kind")
 
 end Pandora.Drv.C15
